@@ -1,0 +1,43 @@
+/* This Source Code Form is subject to the terms of the Mozilla Public
+ * License, v. 2.0. If a copy of the MPL was not distributed with this
+ * file, You can obtain one at http://mozilla.org/MPL/2.0/. */
+
+//! Verification hooks. Only compiled with the `verif` cargo feature, which no
+//! shipped crate enables. Everything here is additive: with the feature off
+//! this module does not exist and no other code path changes.
+
+use std::cell::Cell;
+
+pub use crate::translate_bytecode::CompiledProgram;
+
+thread_local! {
+    static COUNTERS: [Cell<u32>; 4] = const { [Cell::new(1), Cell::new(1), Cell::new(1), Cell::new(1)] };
+    static SKIP_OPTIMIZER: Cell<bool> = const { Cell::new(false) };
+}
+
+/// Id source used (per thread) instead of the process-global counters for
+/// 0 = NodeId, 1 = TypeVarDataId, 2 = PolyInstantiationId, 3 = labels.
+pub(crate) fn next_id(which: usize) -> u32 {
+    COUNTERS.with(|c| {
+        let v = c[which].get();
+        c[which].set(v.wrapping_add(1));
+        v
+    })
+}
+
+/// Make the next compilation on this thread a pure function of (source, base).
+pub fn reset_counters(base: u32) {
+    COUNTERS.with(|c| {
+        for cell in c.iter() {
+            cell.set(base.max(1));
+        }
+    });
+}
+
+pub fn set_skip_optimizer(skip: bool) {
+    SKIP_OPTIMIZER.with(|c| c.set(skip));
+}
+
+pub(crate) fn skip_optimizer() -> bool {
+    SKIP_OPTIMIZER.with(|c| c.get())
+}
